@@ -1068,3 +1068,52 @@ func ruleRawPayloadWaivesExpectedOffset(c *eng.Ctx) {
 	w := q.Find()
 	c.Check(w == nil, "a raw payload waives the expected offset", p.Pos(fn.Pos()), "Offset = -1 on the path that wraps a non-envelope payload", "the message built for a non-envelope payload keeps Offset at its zero value ("+w.String()+"): on a stream with optimistic concurrency control that reads as `must land at offset 0`, so every raw payload after the first fails with ErrIncorrectOffset and is dropped without a nack — the payload is not stored verbatim")
 }
+
+// ruleCreatedStreamUsesLoggedConfig (R06.6 extension, shared with C16 as the "replicated config → stream object" hop of
+// R16.8): the stream a CREATE_STREAM entry yields takes its settings from the entry being applied — also when it replaces a
+// tombstoned incarnation during replay. The entry itself is read-only on the apply path: every server replays the same bytes,
+// so anything written into it from local state (the old incarnation's settings) makes the outcome depend on the history.
+func ruleCreatedStreamUsesLoggedConfig(c *eng.Ctx) {
+	p := c.P
+	fn := c.Fn("server.(*metadataAPI).AddStream")
+	if fn == nil {
+		return
+	}
+	op := eng.Param("protoStream")
+	fromOp := func(v ssa.Value) bool {
+		v = eng.Strip(v)
+		if call := eng.AsCall(v); call != nil {
+			ref := eng.CalleeRef(&call.Call)
+			if strings.HasSuffix(ref, "Stream.GetConfig") && len(call.Call.Args) == 1 && op(call.Call.Args[0]) {
+				return true
+			}
+			return false
+		}
+		return eng.LoadNamed("Config", op)(v)
+	}
+	// no store into the logged operation
+	bad, badPos := "", p.Pos(fn.Pos())
+	eng.Instrs(fn, func(in ssa.Instruction) {
+		st, isSt := in.(*ssa.Store)
+		if !isSt || bad != "" {
+			return
+		}
+		fa, isFA := st.Addr.(*ssa.FieldAddr)
+		if !isFA || !op(eng.Strip(fa.X)) {
+			return
+		}
+		bad, badPos = eng.Describe(st.Val)+" into protoStream."+eng.FieldNameOf(fa), c.Pos(st)
+	})
+	c.Check(bad == "", "the logged operation is not rewritten in AddStream", badPos, "no store into a field of protoStream", "AddStream stores "+bad+": the operation being applied is what every server replays; overwriting a field of it from local state (e.g. the tombstoned incarnation's settings) gives the re-created stream settings that no CREATE_STREAM entry asked for")
+	mk := eng.CallsIn(fn, "server.newStream")
+	if len(mk) != 1 {
+		c.Unresolved("the newStream call in AddStream")
+		return
+	}
+	a := mk[0].Common().Args
+	c.Check(len(a) >= 3 && fromOp(a[2]), "a created stream takes its settings from the logged operation", c.Pos(mk[0]), "newStream(…, protoStream.GetConfig(), …)", "newStream is given "+eng.Describe(a[2])+" as the stream's settings, not the configuration carried by the CREATE_STREAM entry being applied")
+	for _, ap := range eng.CallsIn(fn, "server.metadataAPI.addPartition") {
+		aa := ap.Common().Args
+		c.Check(len(aa) >= 5 && fromOp(aa[4]), "a created stream's partitions take their settings from the logged operation", c.Pos(ap), "addPartition(…, protoStream.GetConfig())", "addPartition is given "+eng.Describe(aa[len(aa)-1])+" as the partition's settings, not the configuration carried by the CREATE_STREAM entry being applied: the commit log is opened with other settings (retention, compaction, concurrency control, encryption) than the stream was created with")
+	}
+}
